@@ -550,7 +550,87 @@ def mode_table(ctx):
         rows[(tuple(sorted(row["req"])), row["ndebug"], row["cpp"])] = row
     if len(rows) != 32:
         raise MachineryError("SpanMode.tla produced %d configurations, expected 32 (see %s)" % (len(rows), r["outfile"]))
+    nx = {}
+    for row in emitted(r["out"], "@N@"):
+        nx[(tuple(sorted(row["req"])), row["ndebug"], row["cpp"])] = row
+    if len(nx) != 32:
+        raise MachineryError("SpanMode.tla produced %d no-exception configurations, expected 32 (see %s)" % (len(nx), r["outfile"]))
+    NX_TABLE.clear()
+    NX_TABLE.update(nx)
     return rows
+
+
+NX_TABLE = {}
+
+
+def probe_noexc(ctx, req, ndebug, cpp, opt="-O1"):
+    """Build and run noexc_probe.cpp with -fno-exceptions in one configuration."""
+    name = "noexc_probe_%s_%s_%d" % ("+".join(sorted(req)) or "none", "nd" if ndebug else "dbg", cpp)
+    out = os.path.join(ctx.sub("probe"), name)
+    cmd = [core.CXX, "-std=c++%d" % cpp, opt, "-fno-exceptions", "-Wno-deprecated-declarations", "-I", core.INCLUDE] + [MACRO[m] for m in sorted(req)] + \
+          (["-DNDEBUG"] if ndebug else []) + [os.path.join(HDIR, "noexc_probe.cpp"), "-o", out]
+    rc, o = core.sh(cmd, timeout=300)
+    row = {"req": sorted(req), "ndebug": ndebug, "cpp": cpp, "opt": opt}
+    if rc != 0:
+        if "error" not in o:
+            raise MachineryError("noexc probe failed to build without a compiler diagnostic:\n%s" % o[-1500:])
+        row.update(entries={}, compiles=False, valid=None, detail=" | ".join(l.strip() for l in o.splitlines() if "error" in l)[:300])
+        return row
+    rc, o = core.sh([out], timeout=120)
+    try:
+        d = json.loads(o.strip().splitlines()[-1])
+    except Exception:
+        raise MachineryError("noexc probe %s printed no result: %s" % (name, o[-300:]))
+    row.update(entries=d["entries"], compiles=True, valid=d["valid"], macro=d["no_exceptions_macro"])
+    return row
+
+
+def check_noexc(ctx, quick):
+    """Round 3: -fno-exceptions builds.  Rows of SpanMode.tla (NxAllowed / NxAtAllowed) against the probe.  Verdict only where
+    the statement speaks (TERMINATE requested: contract checking is enabled, so every bad argument must be rejected, and
+    in-range calls must keep working); everything else is advisory."""
+    cfgs = sorted(k for k in NX_TABLE if (k[2] == 14 or not quick))
+    opts = ["-O0", "-O1", "-O2"]
+    with ThreadPoolExecutor(max_workers=core.NCPU) as ex:
+        rows = list(ex.map(lambda ic: probe_noexc(ctx, ic[1][0], ic[1][1], ic[1][2], opt=opts[ic[0] % 3]), enumerate(cfgs)))
+    adv, nrows, nviol, l2drift = {}, 0, 0, []
+    for key, row in zip(cfgs, rows):
+        t = NX_TABLE[key]
+        cfgname = "{%s}%s C++%d -fno-exceptions" % (",".join(row["req"]) or "no mode macro", " + NDEBUG" if row["ndebug"] else "", row["cpp"])
+        ents = row["entries"] if row["compiles"] else {"*": "does-not-compile", "at": "does-not-compile"}
+        l2 = [n for n, got in ents.items() if got != (t["header_at"] if n.startswith("at") else t["header"])]
+        if l2 and len(l2drift) < 3:
+            l2drift.append("SpanMode.tla (L2, no-exception table) no longer describes the header for %s: entries %s" % (cfgname, sorted(l2)[:5]))
+        for name, got in sorted(ents.items()):
+            nrows += 1
+            allowed = t["at"] if name.startswith("at") else t["allowed"]
+            if got in allowed:
+                continue
+            if t["verdict"] and not name.startswith("at"):
+                nviol += 1
+                if nviol <= 3:
+                    ctx.violation("contract checking without exception support: a translation unit that defines %s must reject an out-of-range "
+                                  "argument of `%s` by terminating, observed: %s %s" % (cfgname, name, got, row.get("detail", "")),
+                                  replay_lines=[{"probe": "noexc", "req": row["req"], "ndebug": row["ndebug"], "cpp": row["cpp"], "opt": row["opt"]}])
+            else:
+                adv.setdefault(("at()" if name.startswith("at") else "checked entry points", got, "/".join(sorted(allowed))), [])
+                if cfgname not in adv[("at()" if name.startswith("at") else "checked entry points", got, "/".join(sorted(allowed)))]:
+                    adv[("at()" if name.startswith("at") else "checked entry points", got, "/".join(sorted(allowed)))].append(cfgname)
+        if row["compiles"] and not row["valid"]:
+            nviol += 1
+            ctx.violation("a translation unit that defines %s gives wrong answers for IN-RANGE calls (at, [], first, last, subspan, front, back, size_bytes)" % cfgname,
+                          replay_lines=[{"probe": "noexc", "req": row["req"], "ndebug": row["ndebug"], "cpp": row["cpp"], "opt": row["opt"]}])
+    ctx.drift.extend(l2drift)
+    for (what, got, allowed), where in sorted(adv.items()):
+        ctx.drift.append("ADVISORY (the C16 statement does not quantify over builds without exception support) %s with an out-of-range argument: "
+                         "observed '%s', SpanMode.tla allows %s, in %d configuration(s): %s" % (what, got, allowed, len(where), "; ".join(where[:4]) + (" ..." if len(where) > 4 else "")))
+    ctx.cov["evaluations"] += nrows
+    ctx.notes["noexc_probe_configurations"] = len(rows)
+    ctx.notes["noexc_probe_rows"] = nrows
+    ctx.notes["noexc_observed"] = {"%s%s/c++%d" % ("+".join(k[0]) or "none", "+NDEBUG" if k[1] else "", k[2]):
+                                   (sorted(set(r["entries"].values())) if r["compiles"] else ["does-not-compile"]) for k, r in zip(cfgs, rows)}
+    ctx.log("no-exception builds: %d configurations, %d (configuration, entry point) rows compared with SpanMode.tla, %d verdict rows failing, %d advisory groups"
+            % (len(rows), nrows, nviol, len(adv)))
 
 
 def probe_config(ctx, req, ndebug, cpp, opt="-O1", cxx=None, tag=""):
@@ -738,6 +818,19 @@ def replay(ctx, path):
         print("  " + "\n  ".join(l for l in o.splitlines() if "error" in l)[:1500])
         return 1
     lines = [l for l in core.read_ndjson(path) if "_meta" not in l]
+    if lines and lines[0].get("probe") == "noexc":
+        p = lines[0]
+        mode_table(ctx)
+        row = probe_noexc(ctx, p["req"], p["ndebug"], p["cpp"], opt=p.get("opt", "-O1"))
+        t = NX_TABLE[(tuple(sorted(p["req"])), p["ndebug"], p["cpp"])]
+        bad = (not row["compiles"] and "does-not-compile" not in t["allowed"]) or (row["compiles"] and (not row["valid"] or any(
+            v not in t["allowed"] for k, v in row["entries"].items() if not k.startswith("at"))))
+        if not bad:
+            print("replay accepted: the -fno-exceptions configuration behaves as SpanMode.tla demands")
+            return 0
+        print("VIOLATION property=C16 replay=%s" % path)
+        print("  allowed %s, observed %s valid=%s" % (t["allowed"], row["entries"] or "does-not-compile", row["valid"]))
+        return 1
     if lines and "probe" in lines[0]:
         p = lines[0]
         table = mode_table(ctx)
@@ -885,10 +978,15 @@ def run(ctx):
         # ---- 1c. mode selection: table + probe in all 32 configurations
         table = mode_table(ctx)
         observed = check_modes(ctx, table)
+        check_noexc(ctx, q)
 
         # ---- 1d. type table, before anything depends on the drivers
         type_table(ctx, q)
         n_static = len(ctx.violations)
+        if os.environ.get("C16_DEV_STATIC_ONLY"):         # development only (mutation experiments on the probe stages)
+            ctx.notes["dev"] = "stopped after the static stages"
+            bt.join()
+            return finish(ctx, q, builds)
 
         # ---- 2. S->C enumeration (the calls enabled in a checking mode are the same for throwing and terminate)
         edges = {}
@@ -1044,7 +1142,9 @@ def finish(ctx, q, builds):
                      "the property does not say which mode a translation unit gets that defines none or several of the mode macros: the observed "
                      "mode is compared with the documented default (terminate, or no checking under NDEBUG) as MODEL-DRIFT only, and the build is "
                      "then held to L1 in the mode it is observed to be in",
-                     "builds without exception support (TCB_SPAN_NO_EXCEPTIONS, where at() cannot throw) and pre-C++14 builds are not run",
+                     "builds without exception support (-fno-exceptions, TCB_SPAN_NO_EXCEPTIONS) are probed per configuration (16 entry points incl. "
+                     "at(), in child processes): a verdict only where TERMINATE is requested, advisory elsewhere; the conformance drivers "
+                     "themselves are not built without exceptions; pre-C++14 builds are not run",
                      "g++ builds do not issue first<0>()/last<0>() (ambiguous braced return in the header under g++ only)",
                      "span<const T>(std::array<const T, N>&) is probed but not required (absent from P0122R7 and from this tree)"],
         exhaustive=False)
